@@ -274,10 +274,41 @@ Theorem C16_scatter_deterministic :
 Proof. exact scatter_state_independent. Qed.
 Print Assumptions C16_scatter_deterministic.
 
+(* Signed integer input arrays at the array level (the dataset level converts
+   to float64 first): as long as the range of the valid values fits the dtype
+   (< 2^(w-1)) downsample_grid behaves exactly as for floats, so the theorems
+   above apply ... *)
+Theorem C16_grid_integer_input_partial :
+  forall (rng : Type) (seed47 : rng) (choice_st : rng -> Z -> Z -> list Z * rng)
+         (w : Z) (g : rng) (a b : list fval) (samples : Z) (ri : bool),
+    0 < w ->
+    ptp (map fin_val (select (good_mask a b) a)) < 2 ^ (w - 1) ->
+    ptp (map fin_val (select (good_mask a b) b)) < 2 ^ (w - 1) ->
+    downsample_grid_int rng seed47 choice_st w g a b samples ri
+    = downsample_grid rng seed47 choice_st g a b samples ri.
+Proof. exact grid_int_no_wrap. Qed.
+Print Assumptions C16_grid_integer_input_partial.
+
+(* ... beyond that norm() wraps and the grid step raises IndexError (finding
+   C16-grid-integer-wrap): int16 values -20000 and 20000 *)
+Theorem C16_grid_integer_wrap_refuted :
+  exists a b samples ri,
+    length a = length b /\ 0 <= samples <= zlen a /\
+    Forall (fun v => - 32768 <= fin_val v < 32768) a /\
+    no_constant_axis a b samples = true /\
+    forall (rng : Type) (seed47 : rng) choice_st g,
+      fst (downsample_grid_int rng seed47 choice_st 16 g a b samples ri)
+      = Err ErrIndex.
+Proof. exact grid_int_wrap_refuted. Qed.
+Print Assumptions C16_grid_integer_wrap_refuted.
+
 (* The selection is a function of the values only, up to a positive unit per
    array (no dependence on array identity or on the representation scale):
    scaling a and b by positive constants leaves the mask (or the error)
-   unchanged. Exact arithmetic; binary64/binary32 rounding is not modelled --
+   unchanged. Not a clause of the property text: it justifies the per-array
+   exponent of the harness encoding. Exact arithmetic; on binary64 it holds
+   for power-of-two factors, which the harness checks on the real code
+   (every grid case is re-run on a * 2^k, b * 2^m); rounding is not modelled --
    on the real code float32 and float64 copies of the same values CAN select
    differently (corpus/C16/15-*.json, reported). *)
 Theorem C16_selection_depends_on_values_only :
